@@ -13,6 +13,7 @@ mod c10;
 mod c03;
 mod c01;
 mod c04;
+mod c02;
 mod vp8lbits;
 mod animgen;
 mod webpfile;
@@ -55,7 +56,10 @@ fn main() {
                 i += 1;
             }
             "--replay" => {
-                o.replay = Some(args[i + 1].clone());
+                o.replay = Some(match args[i + 1].strip_prefix('@') {
+                    Some(path) => std::fs::read_to_string(path).expect("replay file").trim().to_string(),
+                    None => args[i + 1].clone(),
+                });
                 i += 1;
             }
             "--jobs" => {
@@ -86,6 +90,7 @@ fn main() {
         "C03" => c03::run(&o),
         "C01" => c01::run(&o),
         "C04" => c04::run(&o),
+        "C02" => c02::run(&o),
         _ => {
             eprintln!("unknown property {prop}");
             std::process::exit(2);
